@@ -50,13 +50,13 @@ func tlv(tag uint32, content ...[]byte) []byte {
 	return cat(tagBytes(tag), encLen(len(body)), body)
 }
 
-func derSeq(c ...[]byte) []byte  { return tlv(0x30, c...) }
-func derSet(c ...[]byte) []byte  { return tlv(0x31, c...) }
-func derOctets(b []byte) []byte  { return tlv(0x04, b) }
-func derNull() []byte            { return []byte{0x05, 0x00} }
+func derSeq(c ...[]byte) []byte    { return tlv(0x30, c...) }
+func derSet(c ...[]byte) []byte    { return tlv(0x31, c...) }
+func derOctets(b []byte) []byte    { return tlv(0x04, b) }
+func derNull() []byte              { return []byte{0x05, 0x00} }
 func derPrintable(s string) []byte { return tlv(0x13, []byte(s)) }
-func derUTF8(s string) []byte    { return tlv(0x0C, []byte(s)) }
-func derUTCTime(s string) []byte { return tlv(0x17, []byte(s)) }
+func derUTF8(s string) []byte      { return tlv(0x0C, []byte(s)) }
+func derUTCTime(s string) []byte   { return tlv(0x17, []byte(s)) }
 func derBitString(b []byte) []byte { return tlv(0x03, []byte{0}, b) }
 
 // intContent is the two's complement minimal content of a non-negative integer.
